@@ -13,13 +13,15 @@
 
    code map
      write_obj      object.py:323-363 monitors + detect.py:31-56 DetectionMonitor.property_change
+     write_ev       + `deferred(self.algorithm._execute)` when the write sets _triggered
      inc_filter     cov.py COVIncrementCriteria.present_value_filter
-     send_all       cov.py COVIncrementCriteria/COVDetection.send_cov_notifications(None)
-     exec_obj       detect.py DetectionAlgorithm._execute
+     run_dfn DExec  detect.py DetectionAlgorithm._execute -> COV*Criteria.send_cov_notifications(None); an instance that
+                    was unbound meanwhile has an empty subscription list
+     run_dfn DInit  cov.py COVDetection.send_initial_notification(cov) (fix C16-F4) -> send_cov_notifications(cov)
      trem           cov.py send_cov_notifications "calculate time remaining" / ActiveCOVSubscriptions.ReadProperty
-     do_subscribe   cov.py ChangeOfValueServices.do_SubscribeCOVRequest (+ Subscription.__init__,
-                    renew_subscription, PulseConverterCriteria.add_subscription)
-     do_cancel      same, cancel branch (+ ChangeOfValueServices.cancel_subscription,
+     subscribe_now  cov.py ChangeOfValueServices.do_SubscribeCOVRequest / do_SubscribeCOVPropertyRequest (+ Subscription.__init__,
+                    renew_subscription, PulseConverterCriteria.add_subscription); absent mode = unconfirmed (fix C16-F5)
+     cancel_now     same, cancel branch (+ ChangeOfValueServices.cancel_subscription,
                     COVDetection/PulseConverterCriteria.cancel_subscription, DetectionAlgorithm.unbind)
      fire_item      task.py TaskManager order (time, counter); Subscription.process_task;
                     RecurringFunctionTask(covPeriod*1000, send_cov_notifications) + RecurringTask.install_task
